@@ -77,7 +77,7 @@ ARG_EXC_NAMES = ("LenaTypeError", "LenaValueError")
 def _dom(tier):
     if tier == "thorough":
         return dict(
-            lookup_fams=[("chain3", [("a",)] * 3, [0, 1, "c", "1", None, "", [], [0]], 1),
+            lookup_fams=[("chain3", [("a",)] * 3, [0, 1, "c", "1", None, "", [], [0], "ca", ["c"]], 1),
                          ("ab3", [AB, AB, AB], [0], 12),
                          ("ab3a", [AB, AB, ("a",)], [0, 1, "c"], 36),
                          ("ab2", [AB, AB], [0, 1, "c", None, "", [], "1"], 40)],
@@ -101,7 +101,7 @@ def _dom(tier):
             uc_shards=48,
         )
     return dict(
-        lookup_fams=[("chain3", [("a",)] * 3, [0, 1, "c", "1", None, "", [], [0]], 1),
+        lookup_fams=[("chain3", [("a",)] * 3, [0, 1, "c", "1", None, "", [], [0], "ca", ["c"]], 1),
                      ("ab3a", [AB, AB, ("a",)], [0], 4),
                      ("ab2", [AB, AB], [0, 1, "c", None], 12)],
         paths=M.paths(("a", "b", "c"), range(0, 5)) + [p + ("1",) for p in M.paths(AB, range(0, 4))],
